@@ -160,7 +160,10 @@ M2Solve == /\ More /\ WithModel2 /\ ~m2.solved
            /\ UNCHANGED <<sup, cons, obj, gen, pupd, primalGen, sol, poisoned, wrow, wcover>>
 \* each of these must raise and leave BOTH models as they were
 Misuses == {"st_foreign_constr", "forall_foreign_set", "add_foreign_var", "minmax_foreign_set",
-            "get_unsolved", "obj_nonscalar", "st_foreign_robust"}
+            "get_unsolved", "obj_nonscalar", "st_foreign_robust",
+            \* decision rules: adapting to a random variable of the other model, on a fresh rule and on a rule that
+            \* already has a legitimate adaptation (the ownership test must not depend on the rule's history)
+            "ldr_adapt_foreign_fresh", "ldr_adapt_foreign_used"}
 Misuse(w) ==
     /\ More /\ WithModel2
     /\ (w = "get_unsolved" => sol.kind = "none")
